@@ -1,7 +1,10 @@
 /-
   Oracle commands for C17 (streaming / non-streaming / OpenAI-compatible responses).
 
-    run <variant> <ep> <stream 0|1> <raw 0|1> <tools 0|1> <usage 0|1> <hist 0|1> <promptLen> <fault> <end> <chunks> <parse> <climit> <lens>
+    run <variant> <ep> <stream 0|1> <raw 0|1> <tools 0|1> <usage 0|1> <hist 0|1> <promptLen> <empty 0|1> <keepalive0 0|1> <notoolsupport 0|1> <class> <name> <full> <fault> <end> <chunks> <parse> <climit> <lens>
+      empty  : generate: prompt ""; chat: no messages;  keepalive0: keep_alive 0;  notoolsupport: tools requested from a model whose template has none
+      class  : other | cap | cancel | queue | notexist   (class of the scheduler's error when fault = load)
+      name / full : the model name as spelled in the request / its canonical form (hex)
       variant: bit 0 = F17a/b repaired (ChatHandler tools), bit 1 = F17c repaired (openai stream errors),
                bit 2 = F17b alone (non-stream call numbering), bit 3 = F17d repaired (run without done -> error),
                bit 4 = F17e repaired (api.Client returns the scanner's error)
@@ -141,6 +144,18 @@ def pFault : TP Fault := do
       | none => failure
     | _ => failure
 
+def pClass : TP SchedErr := do
+  let t ← tok
+  if t == "other" then pure .other else if t == "cap" then pure .capabilities else if t == "cancel" then pure .canceled
+  else if t == "queue" then pure .maxQueue else if t == "notexist" then pure .notExist else failure
+
+def showReply {α : Type} (f : α → String) : Reply α → String
+  | .fail s m => line s [s!"e:{hexL m}"]
+  | .body m => line 200 [f m]
+  | .stream items => line 200 (items.map (showItem f))
+
+def showOaR (r : Nat × List OaEv) : String := line r.1 (r.2.map showOa)
+
 def showStreamH {α : Type} (f : α → String) : Except Bytes (List (Item α)) → String
   | .ok items => line 200 (items.map (showItem f))
   | .error e => line 500 [s!"e:{hexL e}"]
@@ -169,6 +184,13 @@ def handle (toks : List String) : Option String :=
       let usage := (← nat) != 0
       let hasCtx := (← nat) != 0
       let pl ← nat
+      let empty := (← nat) != 0
+      let ka0 := (← nat) != 0
+      let nts := (← nat) != 0
+      let cls ← pClass
+      let name ← hex
+      let full ← hex
+      let q : ReqShape := { empty := empty, keepAlive0 := ka0, noToolSupport := nts, name := name, full := full, cls := cls }
       let f ← pFault
       let e ← pEnd
       let cs ← listOf pChunk
@@ -181,24 +203,12 @@ def handle (toks : List String) : Option String :=
       let withLens {α : Type} (items : List (Item α)) : List (Item α × Nat) :=
         items.zip (lens ++ List.replicate items.length 0)
       match ep with
-      | "gen" =>
-        pure (if stream then showStreamH showGen (generateStreamH v f raw hasCtx pl cs e)
-              else showOnce showGen (generateOnceH v f raw hasCtx pl cs e))
-      | "chat" =>
-        pure (if stream then showStreamH showChat (chatStreamH v f parse tools hasCtx cs e)
-              else showOnce showChat (chatOnceH v f parse tools hasCtx cs e))
-      | "oachat" =>
-        pure (if stream then showOaStreamH (oaChatStreamH v usage (chatStreamH v f parse tools hasCtx cs e))
-              else let ev := oaChatOnce (chatOnceH v f parse tools hasCtx cs e); line (oaStatus ev) [showOa ev])
-      | "oacmpl" =>
-        pure (if stream then showOaStreamH (oaCmplStreamH v usage (generateStreamH v f false hasCtx pl cs e))
-              else let ev := oaCmplOnce (generateOnceH v f false hasCtx pl cs e); line (oaStatus ev) [showOa ev])
-      | "cgen" =>
-        pure (showClient showGen (clientViewL climit fixC (withLens (if stream then streamAsItems (generateStreamH v f raw hasCtx pl cs e)
-                                              else onceAsItems (generateOnceH v f raw hasCtx pl cs e)))))
-      | "cchat" =>
-        pure (showClient showChat (clientViewL climit fixC (withLens (if stream then streamAsItems (chatStreamH v f parse tools hasCtx cs e)
-                                               else onceAsItems (chatOnceH v f parse tools hasCtx cs e)))))
+      | "gen" => pure (showReply showGen (generateR v stream q f raw hasCtx pl cs e))
+      | "chat" => pure (showReply showChat (chatR v stream q f parse tools hasCtx cs e))
+      | "oachat" => pure (showOaR (oaChatR v stream usage (chatR v stream q f parse tools hasCtx cs e)))
+      | "oacmpl" => pure (showOaR (oaCmplR v stream usage (generateR v stream q f false hasCtx pl cs e)))
+      | "cgen" => pure (showClient showGen (clientViewL climit fixC (withLens (generateR v stream q f raw hasCtx pl cs e).lines)))
+      | "cchat" => pure (showClient showChat (clientViewL climit fixC (withLens (chatR v stream q f parse tools hasCtx cs e).lines)))
       | _ => failure) rest
   | _ => none
 
